@@ -3,6 +3,7 @@ from __future__ import annotations
 
 from hypothesis import strategies as st
 
+from .. import wire
 from ..engine import Eval, Failure, Guarded, Target, collecting, guard
 from ..values import BPAdapter, norm, snap_bp
 from . import _common as cm
@@ -189,6 +190,114 @@ def targets(ctx):
             fails.append(Failure("map_of_wrapper_raises", f"probe|map_of_wrapper|raises_{g.where}", str(g)))
         return Eval(fails, nontrivial=True, labels=["probe"])
 
+    # ---- user-defined types that are merely named like well-known types (StringValue, Timestamp, EnumValue ... in
+    # the user's own package): plain messages / enums, in every position
+    _wl = {}
+
+    def wktlike_ev(case):
+        from ..build import Corpus
+        from ..schema_info import Schema
+        from ..values import snap_ref, to_ref
+
+        if "c" not in _wl:
+            try:
+                _wl["c"] = Corpus("wktlike.proto", "wktlike")
+                _wl["schema"] = Schema(_wl["c"].ref.fds)
+            except Exception as e:  # noqa: BLE001 - the plugin failed / its output does not import
+                _wl["c"] = None
+                _wl["err"] = f"{type(e).__name__}: {str(e)[-300:]}"
+        if _wl["c"] is None:
+            return Eval([Failure("wktlike_schema_unusable", "wktlike|schema_unusable", _wl["err"])], nontrivial=True)
+        wc, ws = _wl["c"], _wl["schema"]
+        mi = ws.msg("wktlike.Holder")
+        tree = case["tree"]
+        cls = wc.bp("Holder")
+        found = []
+        try:
+            m = guard("build", BPAdapter(ws).build, cls, mi, tree)
+            b = guard("bytes", bytes, m)
+            want = norm(ws, mi, tree)
+            try:
+                seen = norm(ws, mi, snap_ref(ws, mi, wc.rf("Holder").FromString(b)))
+            except Exception as e:  # noqa: BLE001
+                seen = f"reference rejects: {e}"
+            if seen != want:
+                found.append(("reference_view", f"reference reads {seen!r:.200} want {want!r:.200}"))
+            m2 = guard("parse", cls().parse, to_ref(ws, wc.ref, "wktlike.Holder", tree).SerializeToString())
+            got = norm(ws, mi, guard("snapshot", snap_bp, ws, mi, m2))
+            if got != want:
+                found.append(("roundtrip_snapshot", f"decoded {got!r:.200} want {want!r:.200}"))
+            if guard("eq", lambda: cls().parse(b) == m) is not True:
+                found.append(("roundtrip_eq", "parse(bytes(m)) != m"))
+            if guard("len", len, m) != len(b):
+                found.append(("len_vs_bytes", f"len={len(m)} bytes={len(b)}"))
+            guard("to_json", m.to_json)
+        except Guarded as g:
+            found = [(f"raises_{g.where}_{type(g.exc).__name__}", str(g))]
+        fails = []
+        for cl, d in found:
+            kinds = ",".join(sorted(tree))[:100]
+            fails.append(Failure(cl, f"wktlike|{cl}|{kinds}", f"tree={tree!r:.300} :: {d}"))
+        return Eval(fails, nontrivial=bool(tree), labels=["wktlike"] + [f"wktlike_field:{k.split('_')[0]}" for k in tree])
+
+    def wktlike_strat():
+        from ..build import load_descriptor_set, run_protoc
+        from ..schema_info import Schema
+        from ..values import TreeStrategies
+        from .. import env
+        import os
+
+        desc = os.path.join(env.work_dir(), "wktlike_only.desc")
+        cp = run_protoc(os.path.join(env.VERIF, "protos"), ["wktlike.proto"], None, desc)
+        if cp.returncode != 0:
+            raise RuntimeError("protoc rejects protos/wktlike.proto: " + cp.stderr[:300])
+        return TreeStrategies(Schema(load_descriptor_set(desc)), max_depth=1, max_fields=5).message("wktlike.Holder").map(lambda t: {"tree": t})
+
+    # ---- payload lengths at and around powers of two (and small multiples of them): block / buffer size thresholds
+    def size_cases():
+        top = 24 if ctx.thorough else 23
+        sizes = set()
+        for k in range(7, top + 1):
+            sizes |= {2**k - 1, 2**k, 2**k + 1}
+        sizes |= {3 * 2**k for k in range(10, top - 1)} | {5 * 2**20, 6 * 2**20}
+        for n in sorted(sizes):
+            for kind in ("bytes", "string", "nested") + (("packed",) if n <= 2**20 else ()):
+                yield {"n": n, "kind": kind}
+
+    def size_ev(case):
+        n, kind = case["n"], case["kind"]
+        S, L = c.bp("Scalars"), c.bp("Leaf")
+        fails = []
+        try:
+            if kind == "bytes":
+                m = S(f_bytes=b"\x07" * n)
+            elif kind == "string":
+                m = S(f_string="\u00e9" * (n // 2) + "x" * (n % 2))  # n bytes of UTF-8
+            elif kind == "packed":
+                m = c.bp("Repeats")(r_fixed64=[7] * (n // 8), r_bool=[True] * (n % 8))
+            else:
+                # a nested message whose own encoding is exactly n bytes: tag + length varint + text
+                ln = n - 1 - 1
+                while 1 + len(wire.enc_varint(ln)) + ln > n:
+                    ln -= 1
+                m = S(f_leaf=L(s="y" * ln), f_int32=5)
+                if len(bytes(m.f_leaf)) != n:
+                    return Eval(discard="no nested encoding of exactly that length")
+            b = guard("bytes", bytes, m)
+            m2 = guard("parse", type(m)().parse, b)
+            if guard("eq", lambda: m2 == m) is not True:
+                fails.append(Failure("roundtrip_eq", f"size|roundtrip_eq|{kind}", f"payload of {n} bytes"))
+            if guard("bytes2", bytes, m2) != b:
+                fails.append(Failure("reencode_bytes", f"size|reencode_bytes|{kind}", f"payload of {n} bytes"))
+            if guard("len", len, m) != len(b):
+                fails.append(Failure("len_vs_bytes", f"size|len_vs_bytes|{kind}", f"payload of {n} bytes"))
+            r = c.rf(type(m).__name__).FromString(b)
+            if r.SerializeToString(deterministic=True) != b:
+                fails.append(Failure("reference_view", f"size|reference_reencodes_differently|{kind}", f"payload of {n} bytes"))
+        except Guarded as g:
+            fails.append(Failure(f"raises_{g.where}", f"size|raises_{g.where}_{type(g.exc).__name__}|{kind}", f"payload of {n} bytes: {g}"))
+        return Eval(fails, nontrivial=True, labels=[f"size_kind:{kind}", f"size_log2:{n.bit_length() - 1}"])
+
     from . import _seq
 
     from . import _wkt
@@ -197,6 +306,10 @@ def targets(ctx):
         Target("corpus_values", make_eval(c), strategy=strat(), quick=700, thorough=8000, time_quick=70),
         Target("known_finding_probes", probe_ev, cases=probe_cases, exhaustive=True, shard_cases=False),
         Target("grammar_schema_values", grammar_ev, strategy=gstrat, quick=3, thorough=40, time_quick=60, time_thorough=900, pin_budget=10, pin_sigs=1),
+        Target("user_types_named_like_wkt", wktlike_ev, strategy=wktlike_strat(), quick=150, thorough=2000,
+               rule="protos/wktlike.proto: user messages / enums named StringValue, BoolValue, Timestamp, Duration, Empty, EnumValue ... as singular, repeated, map-value and oneof fields; round trip and reference view"),
+        Target("payload_sizes_around_powers_of_two", size_ev, cases=size_cases, exhaustive=True,
+               rule="one bytes / string / nested-message / packed payload of exactly 2**k-1, 2**k, 2**k+1 bytes (k = 7..23, thorough 24) and 3*2**k, 5 MiB, 6 MiB: round trip, len, reference re-encoding"),
         _seq.target("C01"),
         _wkt.target("C01"),
     ]
